@@ -41,6 +41,14 @@ type conf struct {
 	// every caller has its own ServantProxy object for the same remote object (they share the
 	// endpoint manager, the connection and the pending-reply table)
 	ownProxies bool
+	// ObjQueueMax (0: default): calls beyond it are refused locally ("invoke queue is full"), which is
+	// accepted; eachMs > 0: the server answers every request eachMs after it arrived
+	objMax int32
+	eachMs int
+	// a pre-client filter (user code between the drawing of the request id and the admission of the call)
+	// takes filter0Ms for caller 0; caller i starts startMs[i] after the beginning
+	filter0Ms int
+	startMs   []int
 	// extra "cut": the connection of caller 0 ends after 12 bytes of its reply; caller 1 starts 1.5 s later,
 	// forces the reconnect and is answered in full on the new connection
 }
@@ -63,12 +71,20 @@ func perms(n int) [][]int {
 func scenario(c conf) *vm.Scenario {
 	sc := &vm.Scenario{Name: c.name, MaxSteps: 300000}
 	sc.Main = func() {
-		opts := tars.VerifClientOpts{AsyncInvokeTimeout: c.timeout}
+		opts := tars.VerifClientOpts{AsyncInvokeTimeout: c.timeout, ObjQueueMax: c.objMax}
 		if c.quiet {
 			opts.ReadTimeout = 3 * time.Second
 			opts.CheckStatusInterval = 60000
 		}
 		comm := tars.VerifNewCommunicator(opts)
+		if c.filter0Ms > 0 {
+			tars.RegisterPreClientFilter(func(ctx context.Context, msg *tars.Message, invoke tars.Invoke, timeout time.Duration) error {
+				if len(msg.Req.SBuffer) == 2 && byte(msg.Req.SBuffer[0]) == 0xA0 {
+					vm.Sleep(int64(c.filter0Ms) * 1e6)
+				}
+				return nil
+			})
+		}
 		ln, err := vnet.Listen("tcp", addr)
 		if err != nil {
 			panic(err)
@@ -93,6 +109,9 @@ func scenario(c conf) *vm.Scenario {
 			vm.GoNamed(fmt.Sprintf("caller%d", i), func() {
 				if c.extra == "cut" && i == 1 {
 					vm.Sleep(int64(1500 * time.Millisecond))
+				}
+				if i < len(c.startMs) && c.startMs[i] > 0 {
+					vm.Sleep(int64(c.startMs[i]) * 1e6)
 				}
 				for round := 0; round < rounds; round++ {
 					var resp requestf.ResponsePacket
@@ -169,6 +188,16 @@ func server(c conf, ln vnet.Listener, start int64) {
 			})
 		}
 	})
+	if c.eachMs > 0 {
+		for {
+			r := vm.Recv(in)
+			vm.GoNamed("srvreply", func() {
+				vm.Sleep(int64(c.eachMs) * 1e6)
+				r.conn.Write((&tnet.Response{Version: r.q.Version, PacketType: 0, ID: r.q.ID, Buffer: r.q.Buffer, Status: map[string]string{}}).Encode())
+				vm.Log("server replied id=%d", r.q.ID)
+			})
+		}
+	}
 	if c.seq > 0 {
 		for n := 0; n < c.seq; n++ {
 			r := vm.Recv(in)
@@ -311,6 +340,10 @@ func check(c conf, r *vm.Result) string {
 			}
 			continue
 		}
+		if strings.HasPrefix(o, "caller ") && strings.Contains(o, " error ") && c.objMax > 0 && strings.Contains(o, "invoke queue is full") {
+			seen++
+			continue
+		}
 		if strings.HasPrefix(o, "caller ") && strings.Contains(o, " error ") {
 			seen++
 			msgs = append(msgs, "caller-got-unexpected-error\n"+o)
@@ -419,6 +452,14 @@ func main() {
 	}
 	add(conf{name: "2 callers with a proxy object each", callers: 2, timeout: 300, quiet: true, allOrders: true, ownProxies: true}, 1, false)
 	add(conf{name: "3 callers with a proxy object each", callers: 3, timeout: 300, quiet: true, allOrders: true, ownProxies: true}, 1, false)
+	// more callers than the per-object in-flight limit: some are refused locally; the others keep distinct ids
+	// (a call is refused when more than ObjQueueMax are in flight: with the limit 1, two in flight, one refused, one more)
+	add(conf{name: "4 callers ObjQueueMax=1 server answers each after 100ms", callers: 4, timeout: 300, quiet: true, objMax: 1, eachMs: 100}, 1, false)
+	add(conf{name: "5 callers ObjQueueMax=2 server answers each after 100ms", callers: 5, timeout: 300, quiet: true, objMax: 2, eachMs: 100}, 1, false)
+	add(conf{name: "4 callers ObjQueueMax=1 server answers each after 100ms", callers: 4, timeout: 300, quiet: true, objMax: 1, eachMs: 100}, deep, true)
+	// caller 0 draws its id, spends 50 ms in a client filter while two others get in flight, is refused; a fourth call follows
+	add(conf{name: "slow client filter, refused call, ObjQueueMax=1", callers: 4, timeout: 300, quiet: true, objMax: 1, eachMs: 100, filter0Ms: 50, startMs: []int{0, 10, 40, 115}}, 1, false)
+	add(conf{name: "slow client filter, refused call, ObjQueueMax=2", callers: 5, timeout: 300, quiet: true, objMax: 2, eachMs: 100, filter0Ms: 50, startMs: []int{0, 10, 20, 40, 125}}, 0, false)
 	add(conf{name: "reply cut by a close, next caller reconnects", callers: 2, timeout: 3000, quiet: true, extra: "cut"}, 1, false)
 	add(conf{name: "reply cut by a close, next caller reconnects", callers: 2, timeout: 3000, extra: "cut"}, 1, false)
 	maxI := int32(1<<31 - 1)
